@@ -25,7 +25,7 @@ theorem ptyE_of_ok {c : Nat} {e : PExpr} (h : OkE c e) : ptyE e = true := by
   | index _ _ ih1 ih2 => simp [ptyE, ih1, ih2]
   | un _ ih => simpa [ptyE] using ih
   | is_ _ ht ih => simp [ptyE, ih, ht]
-  | bin _ _ ih1 ih2 => simp [ptyE, ih1, ih2]
+  | bin _ _ _ ih1 ih2 => simp [ptyE, ih1, ih2]
   | spec _ _ _ ih1 ih2 => simp [ptyE, ih1, ih2]
 
 theorem ptySs_of_all : ∀ (l : List PStmt), (∀ a ∈ l, ptyS a = true) → ptySs l = true
@@ -40,7 +40,7 @@ theorem ptyS_of_ok {c : Nat} {s : PStmt} (h : OkS c s) : ptyS s = true := by
   | decl he ht => simp [ptyS, ptyE_of_ok he, ht]
   | vla he ht => simp [ptyS, ptyE_of_ok he, ht]
   | assign h1 h2 => simp [ptyS, ptyE_of_ok h1, ptyE_of_ok h2]
-  | incassign h1 h2 => simp [ptyS, ptyE_of_ok h1, ptyE_of_ok h2]
+  | incassign h1 h2 _ => simp [ptyS, ptyE_of_ok h1, ptyE_of_ok h2]
   | @ret ctx eo he =>
     cases eo with
     | none => simp [ptyS]
